@@ -2,8 +2,8 @@
    Only statements, `exact`, and Print Assumptions.  gamma / signed_weights / project_lambda / relabel /
    reweight are the definitions of FL.Moments and FL.Reduction that the correspondence run evaluates. *)
 From Coq Require Import QArith ZArith List.
-From FL Require Import Num Moments Moments_proofs Reduction Reduction_proofs.
-From FLGen Require Gen_moments.
+From FL Require Import Num ListX Moments Moments_proofs Reduction Reduction_proofs ReductionExt ReductionExt_proofs.
+From FLGen Require Gen_moments Gen_reduction.
 Import ListNotations.
 Open Scope Q_scope.
 
@@ -96,6 +96,139 @@ Theorem C07_reweight_eg_order :
   (w01 ww yy h <= w01 ww yy h' <-> w01 (reweight w) yy h <= w01 (reweight w) yy h').
 Proof. exact reweight_eg_order. Qed.
 Print Assumptions C07_reweight_eg_order.
+
+(* ================= second phase: source ties regenerated by translators/t_reduction.py =================
+   Each `exact` succeeds only if the fragment regenerated from the CURRENT source is convertible with the
+   definition of Reduction.v / Moments.v / ReductionExt.v that the theorems above and the correspondence run use. *)
+Module R := Gen_reduction.
+
+(* UtilityParity.project_lambda, whole body: the `ratio == 1.0` test, lambda+ - lambda-, its negation, the two
+   clippings at 0, the '+' ++ '-' concatenation, and `return lambda_vec` otherwise *)
+Theorem C07_src_project_lambda :
+  forall r m lam, project_lambda r m lam = R.project_lambda_src r m lam.
+Proof. exact src_project_lambda. Qed.
+Print Assumptions C07_src_project_lambda.
+
+(* ErrorRate: default costs, the one-entry index, gamma (signed errors, the two masked sums, the division) and
+   signed_weights without and with a multiplier *)
+Theorem C07_src_error_rate :
+  forall fp fn rows h l,
+  er_default_costs = R.er_default_costs_src /\ er_index = R.er_index_src /\
+  er_gamma fp fn rows h =
+    (let signed_errors := zipw (fun rw p => R.er_signed_error_src (inject_Z (ry rw)) p) rows h in
+     R.er_error_value_src (R.er_total_fn_src fp fn signed_errors) (R.er_total_fp_src fp fn signed_errors)
+                          (nrows rows)) /\
+  er_signed_weights fp fn rows = map (fun rw => R.er_weight_src fp fn (inject_Z (ry rw))) rows /\
+  er_signed_weights_lam fp fn rows l = map (R.er_weight_lam_src l) (er_signed_weights fp fn rows).
+Proof. exact src_error_rate. Qed.
+Print Assumptions C07_src_error_rate.
+
+(* ConditionalLossMoment: prob_attr = group size / n; signed_weights whole body (unit adjust when lambda_vec is
+   None, lambda_g / P(g) otherwise, looked up by the row's group); bgl_signed_weights is its Some case *)
+Theorem C07_src_loss_weights :
+  forall rows lam,
+  prob_attr rows
+  = map (fun g => R.prob_attr_entry_src (inject_nat (count_if (fun rw : lrow => (snd rw =? g)%Z) rows))
+                                        (inject_nat (length rows))) (bgl_index rows) /\
+  bgl_signed_weights_opt rows lam = R.bgl_signed_weights_src rows lam /\
+  forall l, bgl_signed_weights rows l = bgl_signed_weights_opt rows (Some l).
+Proof. exact src_loss_weights. Qed.
+Print Assumptions C07_src_loss_weights.
+
+(* _Lagrangian._call_oracle: objective + constraint weights, 1 * (w > 0), |w|, n |w| / sum |w| (None = 0/0), and
+   the single-label test with the constant handed to DummyClassifier *)
+Theorem C07_src_call_oracle :
+  forall k r fp fn rows lam w,
+  oracle_weights k r fp fn rows lam
+  = zipw R.co_weights_entry_src (er_signed_weights fp fn rows) (signed_weights k r rows lam) /\
+  relabel w = map R.co_relabel_entry_src w /\
+  reweight w = map R.co_abs_entry_src w /\
+  reweight_eg w
+  = (let redW := map R.co_abs_entry_src w in
+     let s := qsum redW in
+     if Qeqb s 0 then None else Some (map (fun a => R.co_norm_entry_src (inject_nat (length w)) a s) redW)) /\
+  dummy_constant w = R.co_dummy_constant_src w.
+Proof. exact src_call_oracle. Qed.
+Print Assumptions C07_src_call_oracle.
+
+(* ================= second phase: further theorems ================= *)
+
+(* the re-weighting is linear in the multiplier (so the identity for unit multipliers extends to all) *)
+Theorem C07_signed_weights_linear :
+  forall (k : kind) (r : Q) (rows : list row) (c : Q) (a b : list Q) (m : nat),
+  (length a = length b ->
+   Forall2 Qeq (signed_weights k r rows (vadd a b)) (vadd (signed_weights k r rows a) (signed_weights k r rows b))) /\
+  Forall2 Qeq (signed_weights k r rows (map (Qmult c) a)) (map (Qmult c) (signed_weights k r rows a)) /\
+  Forall2 Qeq (signed_weights k r rows (repeat 0 m)) (repeat 0 (length rows)).
+Proof. exact signed_weights_linear. Qed.
+Print Assumptions C07_signed_weights_linear.
+
+Theorem C07_loss_weights_linear :
+  forall (rows : list lrow) (c : Q) (a b : list Q) (m : nat),
+  (length a = length b ->
+   Forall2 Qeq (bgl_signed_weights rows (vadd a b)) (vadd (bgl_signed_weights rows a) (bgl_signed_weights rows b))) /\
+  Forall2 Qeq (bgl_signed_weights rows (map (Qmult c) a)) (map (Qmult c) (bgl_signed_weights rows a)) /\
+  Forall2 Qeq (bgl_signed_weights rows (repeat 0 m)) (repeat 0 (length rows)).
+Proof. exact bgl_signed_weights_linear. Qed.
+Print Assumptions C07_loss_weights_linear.
+
+Theorem C07_error_rate_weights_linear :
+  forall (fp fn : Q) (rows : list row) (l1 l2 : Q),
+  Forall2 Qeq (er_signed_weights_lam fp fn rows (l1 + l2))
+              (vadd (er_signed_weights_lam fp fn rows l1) (er_signed_weights_lam fp fn rows l2)) /\
+  Forall2 Qeq (er_signed_weights_lam fp fn rows 0) (repeat 0 (length rows)) /\
+  er_signed_weights_lam fp fn rows 1 = map (Qmult 1) (er_signed_weights fp fn rows).
+Proof. exact er_signed_weights_lam_linear. Qed.
+Print Assumptions C07_error_rate_weights_linear.
+
+(* signed_weights() of a loss moment: every row has weight 1 (no row falls outside the index) ... *)
+Theorem C07_loss_unit_weights :
+  forall rows : list lrow, bgl_signed_weights_opt rows None = map (fun _ => 1) rows.
+Proof. exact bgl_unit_weights. Qed.
+Print Assumptions C07_loss_unit_weights.
+
+(* ... with which (1/n) sum_i w_i loss_i is the overall mean loss (the MeanLoss objective) ... *)
+Theorem C07_mean_loss_identity :
+  forall (l : loss) (rows : list lrow) (h : list Q),
+  length h = length rows ->
+  (1 / inject_nat (length rows)) * dot (bgl_signed_weights_opt rows None) (losses l rows h)
+  == qsum (losses l rows h) / inject_nat (length rows).
+Proof. exact mean_loss_identity. Qed.
+Print Assumptions C07_mean_loss_identity.
+
+(* ... and which are the weights of the multiplier prob_attr (= default_objective_lambda_vec) *)
+Theorem C07_default_objective_weights :
+  forall rows : list lrow,
+  Forall2 Qeq (bgl_signed_weights rows (prob_attr rows)) (bgl_signed_weights_opt rows None).
+Proof. exact bgl_default_objective_weights. Qed.
+Print Assumptions C07_default_objective_weights.
+
+(* the single-label branch: when the relabelled data carry one label c, the constant classifier c that
+   _call_oracle returns WITHOUT training has weighted error 0 <= that of every h ... *)
+Theorem C07_dummy_optimal :
+  forall (w h : list Q) (c : Q),
+  dummy_constant (relabel w) = Some c ->
+  w01 (reweight w) (relabel w) (const_h c (length w)) == 0 /\
+  w01 (reweight w) (relabel w) (const_h c (length w)) <= w01 (reweight w) (relabel w) h.
+Proof. exact dummy_optimal. Qed.
+Print Assumptions C07_dummy_optimal.
+
+(* ... hence minimises objective + lambda.(gamma - bound) over all hard hypotheses *)
+Theorem C07_dummy_minimises_lagrangian :
+  forall (k : kind) (r eps fp fn : Q) (rows : list row) (lam h : list Q) (c : Q),
+  binary_rows rows -> hard h -> length h = length rows ->
+  let w := oracle_weights k r fp fn rows lam in
+  dummy_constant (relabel w) = Some c ->
+  lagrangian k r eps fp fn rows lam (const_h c (length rows)) <= lagrangian k r eps fp fn rows lam h.
+Proof. exact dummy_minimises_lagrangian. Qed.
+Print Assumptions C07_dummy_minimises_lagrangian.
+
+(* non-vacuity of the single-label branch: demographic parity, all labels 1, lambda = 0: every weight is +1 *)
+Example C07_example_dummy :
+  let rows := [mkRow 1 0 None; mkRow 1 1 None; mkRow 1 0 None] in
+  dummy_constant (relabel (oracle_weights DP 1 1 1 rows (repeat 0 4))) = Some 1 /\
+  dummy_constant (relabel (oracle_weights DP 1 1 1 (mkRow 0 1 None :: rows) (repeat 0 4))) = None.
+Proof. cbv zeta. split; vm_compute; reflexivity. Qed.
 
 (* non-vacuity: equalized odds with a ratio bound on 5 rows; premises hold and both sides of the identity are
    the same non-zero rational *)
